@@ -20,6 +20,10 @@ class Cubic_Spline_Table_Form(object):
     from scipy.interpolate import InterpolatedUnivariateSpline
     # ext =1 means that a value of zero is returned outside the data range. 
     self._interpolant = InterpolatedUnivariateSpline(x_data, y_data, ext =1)
+    # The fit can overflow silently (x values spanning more than about 1e154): every later value would be nan
+    import math
+    if not all(math.isfinite(v) for v in self._interpolant(x_data)):
+      raise ValueError("spline through the data is not finite at its own data points (x range too wide to interpolate)")
     self._deriv = self._interpolant.derivative()
     self._deriv2 = self._deriv.derivative()
 
